@@ -52,6 +52,17 @@ class AsyncMode(Mode, metaclass=abc.ABCMeta):
         # stop mode
         self.stop()
 
+    def stop(self, callback=None, **kwargs) -> bool:
+        """Stop mode and cancel the main task right away.
+
+        The task must not carry on while the mode is stopping (e.g. the game must not start a ball after service
+        mode asked it to stop).
+        """
+        result = super().stop(callback, **kwargs)
+        if self.stopping and self._task and not self._task.done():
+            self._task.cancel()
+        return result
+
     def _stopped(self) -> None:
         """Cancel task."""
         super()._stopped()
